@@ -36,7 +36,7 @@ const (
 var rlLog []int
 var rlSetupSampleFailed bool
 
-func rlMetricsResetFn(_ *metrics.Metrics)                 { rlLog = append(rlLog, rlMetricsReset) }
+func rlMetricsResetFn(_ *metrics.Metrics)                    { rlLog = append(rlLog, rlMetricsReset) }
 func rlProgressStartFn(_ *raterun.Runner, _ context.Context) { rlLog = append(rlLog, rlProgressStart) }
 func rlProgressStopFn(_ *raterun.Runner)                     { rlLog = append(rlLog, rlProgressStop) }
 func rlRecordSetup(_ *metrics.Metrics, _ string, result metrics.ResultType, _ int64) {
